@@ -134,7 +134,7 @@ class Recorder:
         d = disk.ArrayDir(seg.path)
         if not d.exists:
             return {'gone': True, 'out': out, 'rows': [], 'tail': 0, 'descr': {'k': 'absent'}, 'readme': {'k': 'absent'},
-                    'meta': {'k': 'absent'}, 'hlen': 0, 'mode': 'r', 'mmode': 'r', 'fresh': [-1]}
+                    'meta': {'k': 'absent'}, 'hlen': 0, 'mode': 'r', 'mmode': 'r', 'fresh': [-1], 'ctx': False}
         numtype, byteorder, tailshape, itemsize = seg.consts
         rowbytes = itemsize
         for s in tailshape:
@@ -184,7 +184,7 @@ class Recorder:
         finally:
             self.busy = False
         return {'gone': False, 'out': out, 'rows': rows, 'tail': tail, 'descr': descr, 'readme': readme, 'meta': meta,
-                'hlen': len(h), 'mode': h.accessmode, 'mmode': h.metadata.accessmode, 'fresh': fresh}
+                'hlen': len(h), 'mode': h.accessmode, 'mmode': h.metadata.accessmode, 'fresh': fresh, 'ctx': False}
 
     # ---------------------------------------------------------- segments
     def close(self, seg):
